@@ -21,8 +21,8 @@ class Policy:
         self.large_fo = large_fo  # 'accept' | 'refuse08' (service not supported) | 'refuse0109' (invalid size)
         self.std_fo = std_fo  # 'accept' | 'refuse'
         self.fclose = fclose  # 'accept' | 'refuse'
-        self.session_handles = list(session_handles or [0x01020304, 0x0A0B0C0D, 0x11223344, 0x55667788, 0x99AABBCC])
-        self.conn_ids = list(conn_ids or [0x00C0FFEE, 0x0BADF00D, 0x12345678, 0x0F1E2D3C, 0x7A7B7C7D])
+        self.session_handles = list(session_handles or [0x01020304, 0x8A0B0C0D, 0x11223344, 0xFFFFFFFE, 0x99AABBCC])
+        self.conn_ids = list(conn_ids or [0x00C0FFEE, 0x8BADF00D, 0x12345678, 0xFF1E2D3C, 0x7A7B7C7D])
         self.max_std_size = max_std_size
         self.max_large_size = max_large_size
 
